@@ -96,6 +96,15 @@ def gen_sp_program2(rng):
             # by a flush inside the savepoint
             choices += [raw, raw]
         inner = rng.choice(choices)
+        if rng.random() < 0.2:
+            # a flush that FAILS inside the savepoint after a versioned INSERT went through; the application rolls the
+            # savepoint back and continues
+            prog.append(['sp_fail', 7 + rnd, 1])
+            prog.append(['set', 0, rng.choice([1, 2]), {'a': 30 + rnd}])
+            if rng.random() < 0.5:
+                prog.append(['flush'])
+            prog.append(['commit'])
+            continue
         if inner is raw:
             (raw_links.discard if raw[0] == 'rawunlink' else raw_links.add)(a)
         prog.append(inner)
@@ -165,7 +174,12 @@ def corpus():
             dict(kind='S', cfg=cfg, prog=[['add', 0, 1, {'a': 1}], ['commit'], ['sp_begin'], ['set', 0, 1, {'a': 2}], ['flush'],
                                           ['sp_rollback'], ['set', 0, 1, {'a': 3}], ['commit']]),
             dict(kind='S', cfg=cfg, prog=[['add', 0, 1, {'a': 1}], ['add', 3, 1, {'a': 0}], ['commit'], ['sp_begin'],
-                                          ['set', 3, 1, {'a': 2}], ['flush'], ['sp_rollback'], ['set', 0, 1, {'a': 3}], ['commit']])]
+                                          ['set', 3, 1, {'a': 2}], ['flush'], ['sp_rollback'], ['set', 0, 1, {'a': 3}], ['commit']]),
+            # a flush failing inside a savepoint after a versioned INSERT went through (F-C06-failed-flush-in-savepoint)
+            dict(kind='S', cfg=cfg, prog=[['add', 0, 1, {'a': 1}], ['add', 3, 1, {'a': 0}], ['commit'], ['set', 0, 1, {'a': 2}],
+                                          ['flush'], ['sp_begin'], ['sp_fail', 7, 1], ['set', 0, 1, {'a': 3}], ['commit']]),
+            dict(kind='S', cfg=cfg, prog=[['add', 0, 1, {'a': 1}], ['add', 3, 1, {'a': 0}], ['commit'], ['sp_begin'],
+                                          ['sp_fail', 7, 1], ['set', 0, 1, {'a': 3}], ['commit']])]
 
 
 def _reset(env):
